@@ -33,7 +33,7 @@ NONE    == 0                        \* "no handler" (None, or the 415 error when
 NOKEY   == MT("", "", <<>>)         \* filler for unused record fields
 
 Rec(op, o, k, h, ct, d, r, res, err) ==
-    [op |-> op, o |-> o, k |-> k, h |-> h, ct |-> ct, d |-> d, r |-> r, res |-> res, err |-> err]
+    [op |-> op, o |-> o, k |-> k, h |-> h, pairs |-> <<>>, ct |-> ct, d |-> d, r |-> r, res |-> res, err |-> err]
 
 (* ---- the mapping ---- *)
 KeySeq(map)    == [i \in DOMAIN map |-> map[i].k]
@@ -83,7 +83,7 @@ Pop(o, k, dflt) ==
     /\ last' = Rec("pop", o, k, 0, NOKEY, NOKEY, dflt, IF HasKey(objs[o].map, k) THEN Get(objs[o].map, k) ELSE NONE,
                    ~HasKey(objs[o].map, k) /\ ~dflt)
 Update(o, pairs) == /\ Upd(o, SetAll(objs[o], pairs))
-                    /\ last' = [Rec("update", o, NOKEY, 0, NOKEY, NOKEY, FALSE, 0, FALSE) EXCEPT !.h = Len(pairs)]
+                    /\ last' = [Rec("update", o, NOKEY, 0, NOKEY, NOKEY, FALSE, 0, FALSE) EXCEPT !.pairs = pairs]
 Clear(o) ==     /\ Upd(o, DelAll(objs[o]))
                 /\ last' = Rec("clear", o, NOKEY, 0, NOKEY, NOKEY, FALSE, 0, FALSE)
 SetDefault(o, k, h) ==
